@@ -559,9 +559,10 @@ class FunctionalRightScalarMult(Functional, OperatorRightScalarMult):
 
         scalar = func.domain.field.element(scalar)
 
+        # gradient of x -> f(s x) is s * grad f(s x), Lipschitz with s^2 * L
         Functional.__init__(
             self, space=func.domain, linear=func.is_linear,
-            grad_lipschitz=np.abs(scalar) * func.grad_lipschitz)
+            grad_lipschitz=np.abs(scalar) ** 2 * func.grad_lipschitz)
         OperatorRightScalarMult.__init__(self, operator=func, scalar=scalar)
 
     @property
